@@ -410,14 +410,17 @@ def twins(ck, npstats):
         nf = rng.randint(2, 20)
         nd = rng.choice(gen.EXACT_ND[2:])
         freq, _ = gen.gen_freq(rng, nf)
-        dirs, _ = gen.gen_dirs(rng, nd, order="sorted")
+        # hs: any rotation of the stored sequence, the 0/360 wrap between the first two included (bin width taken the
+        # short way); mom1/dm use the signed difference of the first two labels and are compared for sorted storage only
+        dorder = rng.choice(["sorted", "sorted", "rotated", "seam"])
+        dirs, _ = gen.gen_dirs(rng, nd, order=dorder)
         E, kind = gen.gen_spectrum(rng, nf, nd)
         tail = rng.random() < 0.7
         s, c = gen.trig_tables(dirs)
         z = [0] * nf
         reqs.append(" ".join(["stats", "1" if tail else "0", enc_v(freq), enc_optv(dirs), enc_m(E, nd), enc_v(s), enc_v(c),
                               enc_v(z), enc_v(z)]))
-        ctxs.append((freq, dirs, E, tail, kind))
+        ctxs.append((freq, dirs, E, tail, kind + ":" + dorder))
     for (freq, dirs, E, tail, kind), resp in zip(ctxs, run_driver(reqs)):
         st, mo = parse_resp(resp)
         case = dict(freq=freq.tolist(), dirs=dirs.tolist(), E=E.tolist(), tail=tail)
@@ -428,6 +431,8 @@ def twins(ck, npstats):
         h = float(npstats.hs(E, freq, dirs, tail=tail))
         if not close(h, 4 * math.sqrt(mo["npHsE"]), rel=1e-9):
             ck.disagree("twin:hs", f"impl={h} model={4 * math.sqrt(mo['npHsE'])}", case)
+        if not kind.endswith(":sorted"):
+            continue
         S_, C_ = float(mo["npDmS"]), float(mo["npDmC"])
         if math.hypot(S_, C_) > 1e-6 * float(np.abs(E).sum() + 1e-300):
             d = float(npstats.dm(E, dirs))
